@@ -7,6 +7,7 @@ import Spq.Drv.Reim4
 import Spq.Drv.Module
 import Spq.Drv.Cache
 import Spq.Drv.Cover
+import Spq.Drv.ModuleNtt
 /- Model driver: one operation per line in, one canonical result line out. -/
 open Spq.Drv
 
@@ -24,6 +25,7 @@ def dispatch (toks : List String) : String :=
     | "md" :: rest => handleMd rest
     | "ca" :: rest => handleCa rest
     | "cv" :: rest => handleCv rest
+    | "mn" :: rest => handleMn rest
     | _ => none
   r.getD "bad-op"
 
